@@ -134,7 +134,7 @@ pub fn c20_magics() {
     vassert!(multiboot2_header::MAGIC == 0xE852_50D6, "header magic");
 }
 
-// @harness props=C20,C04 tier=quick panic=forbid
+// @harness props=C20,C04,C08 tier=quick panic=forbid
 // @encodes multiboot2::FramebufferTag::buffer_type (type byte classification = FramebufferTypeId::try_from) BootInformation::framebuffer_tag
 // @bound all 256 type bytes; one framebuffer tag of declared size 40 (8 colour-info bytes) in a 56-byte region; dev-profile semantics of the enum-typed load
 #[cfg_attr(kani, kani::proof)]
